@@ -329,3 +329,18 @@ pub fn parse_dtls_plaintext_record(i: &[u8]) -> IResult<&[u8], DTLSPlaintext> {
 pub fn parse_dtls_plaintext_records(i: &[u8]) -> IResult<&[u8], Vec<DTLSPlaintext>> {
     many1(complete(parse_dtls_plaintext_record))(i)
 }
+
+// crate-private parsers exposed to the verification harnesses (compiled only by `cargo kani`)
+#[cfg(kani)]
+pub(crate) mod verif_access {
+    use super::*;
+    pub(crate) fn dtls_fragment(i: &[u8]) -> IResult<&[u8], DTLSMessageHandshakeBody> {
+        parse_dtls_fragment(i)
+    }
+    pub(crate) fn dtls_client_hello(i: &[u8]) -> IResult<&[u8], DTLSMessageHandshakeBody> {
+        parse_dtls_client_hello(i)
+    }
+    pub(crate) fn dtls_hello_verify_request(i: &[u8]) -> IResult<&[u8], DTLSMessageHandshakeBody> {
+        parse_dtls_hello_verify_request(i)
+    }
+}
